@@ -5,6 +5,7 @@ import (
 	"fmt"
 	"hash/fnv"
 	"math/big"
+	"os"
 	"strconv"
 	"strings"
 	"testing"
@@ -461,6 +462,9 @@ func (c *c13) exec(line string) (obs string, suffix string) {
 		})
 		cls = c.class(err)
 		orc = append(orc, b01(!errors.Is(err, irotypes.ErrFailedBootstrapLiquidityPool)))
+		if errors.Is(err, irotypes.ErrFailedBootstrapLiquidityPool) && os.Getenv("C13_DEBUG") != "" {
+			fmt.Printf("BOOTSTRAP: %+v\n", err)
+		}
 		c.streakActor = -1
 	case "claim":
 		a, ai := act(1)
